@@ -83,6 +83,12 @@ func c10Run(t *testing.T, s *sim.Scn) *sim.Outcome {
 		return o
 	}
 	cands := [][]c10Batch{{}}
+	// the size limit a caller may pass along (the single sequencer hands out whole batches whatever it says)
+	nextN := 0
+	nextMaxBytes := func() uint64 {
+		nextN++
+		return []uint64{0, 0, 1, 10, 1 << 20}[(int(s.Cfg["mb"])+nextN)%5*int(s.Cfg["mb"]%2)]
+	}
 	restarts, crashes, rejected, dupContent, handed, diskErrs := 0, 0, 0, 0, 0, 0
 
 	describe := func() string {
@@ -104,7 +110,7 @@ func c10Run(t *testing.T, s *sim.Scn) *sim.Outcome {
 	}
 
 	doNext := func(step int, what string) bool {
-		res, err := seq.GetNextBatch(ctx, coresequencer.GetNextBatchRequest{Id: chain})
+		res, err := seq.GetNextBatch(ctx, coresequencer.GetNextBatchRequest{Id: chain, MaxBytes: nextMaxBytes()})
 		if err != nil {
 			o.Fail("C10/next-error", "", step, err.Error(), "next succeeds")
 			return false
@@ -292,7 +298,7 @@ func c10Run(t *testing.T, s *sim.Scn) *sim.Outcome {
 		case "next":
 			if crashK >= 0 {
 				disk.Arm(crashK)
-				res, err := seq.GetNextBatch(ctx, coresequencer.GetNextBatchRequest{Id: chain})
+				res, err := seq.GetNextBatch(ctx, coresequencer.GetNextBatchRequest{Id: chain, MaxBytes: nextMaxBytes()})
 				fired := disk.Disarm()
 				if fired {
 					crashes++
@@ -397,7 +403,7 @@ func dedupCands(cs [][]c10Batch) [][]c10Batch {
 }
 
 func c10Gen(r *rand.Rand, tier string) *sim.Scn {
-	s := &sim.Scn{Cfg: map[string]int64{"bound": 1 + r.Int64N(8)}}
+	s := &sim.Scn{Cfg: map[string]int64{"bound": 1 + r.Int64N(8), "mb": r.Int64N(6)}}
 	if r.IntN(40) == 0 {
 		s.Cfg["conc"] = 1
 		s.Cfg["concseed"] = r.Int64N(1 << 40)
